@@ -16,6 +16,10 @@ LEAN_TARGETS = ['OdxVerif.Props.C03', 'OdxVerif.Props.C07', 'OdxVerif.Props.C03N
 DRIVERS = ["drv_codec"]
 THEOREMS = ["OdxVerif.Codec." + t for t in ['C03_reencode_struct', 'C03_reencode_flat', 'C03_no_warning_without_overlap', 'C03_reencode_partial', 'C03_negative_zero_counterexample', 'reenc_agree', 'encAll_nowarn',
                                               'C03_reencode_nested', 'C03_encoded_is_canonical', 'C03_empty_dynlen_before_offset_counterexample', 'C03_static_padding_behind_end_counterexample', 'descs_reencode_pure', 'Descs.supplied_eq_decoded']]
+# W17 (round-6 constructors: Desc2 / Foot2) — appended
+LEAN_TARGETS = LEAN_TARGETS + ['OdxVerif.Props.C03Nested2']
+THEOREMS = THEOREMS + ["OdxVerif.Codec." + t for t in ['C03_reencode_nested2', 'C03_reencode_nested2_echo', 'C03_encoded_is_canonical2', 'descs2_reencode_pure',
+                                                        'Descs2.supplied_eq_decoded', 'exRe2_ok', 'exRe3_ok']]
 RULE = ("PDUs 'from the wire': for simple-tier descriptions (standard-length objects of all base types/encodings/byte orders/bit positions in "
         "nested structures with/without BYTE-SIZE, static fields, bit-packed groups) every raw value of objects <= 8 bit and boundary/sampled raw "
         "values of wider ones are placed by the independent positional interpreter odxgen/refpdu.py, restricted to canonical PDUs (canonPdu, "
